@@ -71,9 +71,14 @@ def configs(tier):
 
 @implementer(interfaces.IConsumer)
 class Collector:
+    # a slow consumer: may pause its producer from inside write() (set by
+    # run_one: pause_now() -> bool), resumed later by a scheduler event
+    pause_now = None
+
     def __init__(self):
         self.records = []
         self.producer = None
+        self.paused = False
 
     def registerProducer(self, producer, streaming):
         self.producer = producer
@@ -83,6 +88,11 @@ class Collector:
 
     def write(self, data):
         self.records.append(data)
+        if self.pause_now is not None and self.producer is not None and \
+                not self.paused and self.pause_now():
+            self.paused = True
+            self.resume_target = self.producer
+            self.producer.pauseProducing()
 
 
 class Mitm:
@@ -333,6 +343,7 @@ def run_one(seed, tape, opts):
         s["attached"] = True
         s["attached_alive"] = rx_end[d].alive
         col = Collector()
+        col.pause_now = pause_now
         s["consumer"] = col
         exp = None
         if s["mode"] == "consumer_exp" and recs[d]:
@@ -360,6 +371,7 @@ def run_one(seed, tape, opts):
                     # completion callback, to the next part of the stream
                     # (back-to-back files): a second consumer, no byte budget
                     col2 = Collector()
+                    col2.pause_now = pause_now
                     try:
                         rx.connectConsumer(col2)
                         s["consumer2"] = col2
@@ -388,8 +400,45 @@ def run_one(seed, tape, opts):
     idle = [61.0 + tape.choose(540, "idle_s")
             if tape.choose(3, "idle") == 0 else None]
 
+    # slow consumers (half of the runs): pause from inside write(), resume
+    # when the scheduler says so
+    slow = tape.choose(2, "slow_consumer") == 0
+    pause_budget = [6]
+
+    def pause_now():
+        if not slow or pause_budget[0] <= 0:
+            return False
+        if tape.choose(3, "pause?") != 0:
+            return False
+        pause_budget[0] -= 1
+        sim.note("probe.consumer_paused_producer")
+        return True
+
+    def resume(col):
+        col.paused = False
+        sim.ev("consumer_resume")
+        try:
+            # (also after the library unregistered it meanwhile: the
+            # consumer resumes what it paused)
+            col.resume_target.resumeProducing()
+        except Exception as e:
+            # (whatever escapes here is logged by a real reactor; the
+            # delivery oracles below decide)
+            sim.note("probe.resumeProducing_raised." + type(e).__name__)
+
+    def paused_collectors():
+        out = []
+        for d_ in ("s2r", "r2s"):
+            for k in ("consumer", "consumer2"):
+                col = st[d_].get(k) if d_ in st else None
+                if col is not None and col.paused:
+                    out.append(col)
+        return out
+
     def app_events():
         evs = []
+        for col in paused_collectors():
+            evs.append(("resume", lambda col=col: resume(col)))
         if idle[0] is not None:
             def pause():
                 dt, idle[0] = idle[0], None
@@ -518,6 +567,9 @@ def run_one(seed, tape, opts):
         return not any(len(e.inflight) for e in link.ends)
     sim.run(20000, until=all_done, max_time=800)
     idle[0] = None
+    slow = False
+    for col in paused_collectors():
+        resume(col)
     sim.chaos = False
     sim.run(3000, max_time=30)
     oracle()
